@@ -254,5 +254,229 @@ Proof.
     split; [exact (lift_err9 _ _ _ _ B) | auto].
 Qed.
 
+(* ------------------------------------------------------------------ statements *)
+Variable ret : bool.
+
+Definition cont9 (start : N) (R : lstore) (gv : list (option value)) (top : frame) (hp : heap) (endp : N)
+           (out : out9) (R' : lstore) (g' : gl) : Prop :=
+  gsimple (R' ++ g') /\
+  match out with
+  | ONorm9 => exists k gv' top' hp',
+      steps9' k (start, below ++ lstack R, gv, top :: rest, hp) (endp, below ++ lstack R', gv', top' :: rest, hp') /\
+      fr_off top' = fr_off top /\ grel' g' gv'
+  | ORet9 v => exists k gv' top' hp' ipr mid,
+      steps9' k (start, below ++ lstack R, gv, top :: rest, hp) (ipr, below ++ mid ++ [to_vm v], gv', top' :: rest, hp') /\
+      fr_off top' = fr_off top /\ code_at P ipr IReturn /\ grel' g' gv' /\ simple v
+  | OErr9 => exists k c1, steps9' k (start, below ++ lstack R, gv, top :: rest, hp) c1 /\ fail9 c1 /\ grel' g' (gl9 c1)
+  end.
+
+Lemma cont9_prepend k a b endp R gv top hp R1 gv1 top1 hp1 out R' g' :
+  steps9' k (a, below ++ lstack R, gv, top :: rest, hp) (b, below ++ lstack R1, gv1, top1 :: rest, hp1) ->
+  fr_off top1 = fr_off top ->
+  cont9 b R1 gv1 top1 hp1 endp out R' g' -> cont9 a R gv top hp endp out R' g'.
+Proof.
+  intros Hst Hfo [Hs H]. split; [exact Hs|]. destruct out.
+  - destruct H as (k2 & gv' & top' & hp' & H2 & Hf & Hr). exists (k + k2)%nat, gv', top', hp'.
+    split; [eapply steps9_trans; eauto|]. split; [congruence | exact Hr].
+  - destruct H as (k2 & gv' & top' & hp' & ipr & mid & H2 & Hf & Hc & Hr & Hv). exists (k + k2)%nat, gv', top', hp', ipr, mid.
+    split; [eapply steps9_trans; eauto|]. split; [congruence | auto].
+  - destruct H as (k2 & c1 & H2 & He & Hr). exists (k + k2)%nat, c1. split; [eapply steps9_trans; eauto | auto].
+Qed.
+
+Lemma cont9_done a R g gv top hp : gsimple (R ++ g) -> grel' g gv -> cont9 a R gv top hp a ONorm9 R g.
+Proof. intros Hs Hr. split; [exact Hs|]. exists 0%nat, gv, top, hp. split; [constructor | auto]. Qed.
+
+(* a normal end continues with a jump *)
+Lemma cont9_goto a R gv top hp mid endp out R' g' :
+  cont9 a R gv top hp mid out R' g' -> code_at P mid (IGoto (u32_to_i32 endp)) -> endp < 2147483648 ->
+  cont9 a R gv top hp endp out R' g'.
+Proof.
+  intros [Hs H] Hc Hsmall. split; [exact Hs|]. destruct out; [|exact H|exact H].
+  destruct H as (k & gv' & top' & hp' & H2 & Hf & Hr). exists (k + 1)%nat, gv', top', hp'.
+  split; [|auto]. eapply steps9_trans; [exact H2|]. apply steps9_1. apply exec1_exec9.
+  apply (@ex_goto F bld P cap (top' :: rest) hp' None [] _ endp (below ++ lstack R') gv' Hc Hsmall).
+Qed.
+
+Lemma cond_sim9 e pre (jump_if : bool) tgt restc R g gv top hp :
+  expr_f1 e = true ->
+  seg' pre (code_expr5 T (lnames R) e ++ (if jump_if then IGotoIfTrue else IGotoIfFalse) (u32_to_i32 tgt) :: restc) ->
+  tgt < 2147483648 -> names_ok (expr_gnames (lnames R) e) ->
+  N.to_nat (fr_off top) = length below -> (S (length below + length R + depth e) < cap)%nat ->
+  grel' g gv -> gsimple (R ++ g) ->
+  match ev (R ++ g) e with
+  | Some v => steps9' (length (code_expr5 T (lnames R) e) + 1) (bytes pre, below ++ lstack R, gv, top :: rest, hp)
+       (if Bool.eqb (RefSem.v_bool [] v) jump_if then tgt else bytes pre + bytes (code_expr5 T (lnames R) e) + 5,
+        below ++ lstack R, gv, top :: rest, hp)
+  | None => exists k c1, steps9' k (bytes pre, below ++ lstack R, gv, top :: rest, hp) c1 /\ fail9 c1 /\ gl9 c1 = gv
+  end.
+Proof.
+  intros He Hseg Htgt Hn Hoff Hd Hrel Hsimp. destruct (seg_mid P _ _ _ _ Hseg) as (Se & Hc & _).
+  pose proof (expr_frame9 e pre R g gv top hp He Se Hn Hoff Hd Hrel Hsimp) as Hex.
+  destruct (ev (R ++ g) e) as [v|] eqn:Ev; [|exact Hex]. destruct Hex as [Hex Hv].
+  eapply steps9_trans; [exact Hex|]. apply steps9_1. apply exec1_exec9.
+  pose proof (@ex_goto_if F bld P cap (top :: rest) hp None [] jump_if (bytes (pre ++ code_expr5 T (lnames R) e)) tgt
+                (below ++ lstack R) (to_vm v) (RefSem.v_bool [] v) gv Hc Htgt (vm_not F hp v Hv)) as X.
+  rewrite bytes_app in X. rewrite bytes_app. exact X.
+Qed.
+
+Definition stmt_sim9 (c : card) : Prop :=
+  forall R g out R' g', stmt9 sg ret (lnames R) c = true -> run9 cs R g c = (out, R', g') ->
+  forall pre gv top hp,
+    seg' pre (code9 T FT (lnames R) (bytes pre) c) -> names_ok (stmt_gnames9 (lnames R) c) ->
+    N.to_nat (fr_off top) = length below ->
+    (S (length below + length R + stmt_depth9 c) + need < cap)%nat -> grel' g gv -> gsimple (R ++ g) ->
+    cont9 (bytes pre) R gv top hp (bytes (pre ++ code9 T FT (lnames R) (bytes pre) c)) out R' g' /\ lnames R' = lnames R.
+
+Lemma if1_sim9 (jump_if : bool) e b R g out R' g' pre gv top hp :
+  stmt_sim9 b -> expr_f1 e = true -> stmt9 sg ret (lnames R) b = true ->
+  let ce := code_expr5 T (lnames R) e in
+  let cb := code9 T FT (lnames R) (bytes pre + bytes ce + 5) b in
+  let tgt := bytes pre + bytes ce + 5 + bytes cb in
+  let J := (if jump_if then IGotoIfTrue else IGotoIfFalse) (u32_to_i32 tgt) in
+  (match ev (R ++ g) e with
+   | None => (OErr9, R, g)
+   | Some v => if Bool.eqb (RefSem.v_bool [] v) jump_if then (ONorm9, R, g) else run9 cs R g b
+   end) = (out, R', g') ->
+  seg' pre (ce ++ J :: cb) -> names_ok (expr_gnames (lnames R) e ++ stmt_gnames9 (lnames R) b) ->
+  N.to_nat (fr_off top) = length below ->
+  (S (length below + length R + Nat.max (depth e) (stmt_depth9 b)) + need < cap)%nat -> grel' g gv -> gsimple (R ++ g) ->
+  cont9 (bytes pre) R gv top hp (bytes (pre ++ ce ++ J :: cb)) out R' g' /\ lnames R' = lnames R.
+Proof.
+  intros IHb He Hb ce cb tgt J Hrun Hseg Hn Hoff Hroom Hrel Hsimp.
+  assert (HJ : spanN J = 5) by (unfold J; destruct jump_if; reflexivity).
+  assert (Hend : bytes (pre ++ ce ++ J :: cb) = tgt).
+  { rewrite !bytes_app. cbn [bytes]. rewrite HJ. unfold tgt. lia. }
+  assert (Hsmall : tgt < 2147483648) by (pose proof (seg_bound P P_small _ _ Hseg) as Hb'; rewrite Hend in Hb'; lia).
+  assert (Hne : names_ok (expr_gnames (lnames R) e)) by (intros x Hx; apply Hn, in_or_app; auto).
+  assert (Hnb : names_ok (stmt_gnames9 (lnames R) b)) by (intros x Hx; apply Hn, in_or_app; auto).
+  pose proof (cond_sim9 e pre jump_if tgt cb R g gv top hp He Hseg Hsmall Hne Hoff ltac:(lia) Hrel Hsimp) as Hcond.
+  fold ce in Hcond.
+  destruct (ev (R ++ g) e) as [v|] eqn:Ev.
+  - destruct (Bool.eqb (RefSem.v_bool [] v) jump_if) eqn:Eb.
+    + injection Hrun as <- <- <-. split; [|reflexivity]. rewrite Hend.
+      eapply cont9_prepend; [exact Hcond | reflexivity | apply cont9_done; assumption].
+    + destruct (seg_mid P _ _ _ _ Hseg) as (_ & _ & Sb).
+      assert (Hpre' : bytes (pre ++ ce ++ [J]) = bytes pre + bytes ce + 5).
+      { rewrite !bytes_app. cbn [bytes]. rewrite HJ. lia. }
+      destruct (IHb R g out R' g' Hb Hrun (pre ++ ce ++ [J]) gv top hp ltac:(rewrite Hpre'; exact Sb) Hnb Hoff ltac:(lia) Hrel Hsimp)
+        as [Hbody Hl].
+      rewrite Hpre' in Hbody. fold cb in Hbody. rewrite <- !app_assoc in Hbody. cbn [app] in Hbody.
+      split; [|exact Hl]. eapply cont9_prepend; [exact Hcond | reflexivity | exact Hbody].
+  - injection Hrun as <- <- <-. split; [|reflexivity]. destruct Hcond as (k & c1 & A & B & C).
+    split; [exact Hsimp|]. exists k, c1. rewrite C. auto.
+Qed.
+
+Lemma rhs_err_cont9 a R gv top hp e g1 endp :
+  rhs_res9 a R gv top hp e (None, g1) -> gsimple R -> cont9 a R gv top hp endp OErr9 R g1.
+Proof.
+  intros (k & c1 & A & B & C & D) HR. split; [apply gsimple_app9; auto|]. exists k, c1. auto.
+Qed.
+
+Lemma stmt_sim9_all c : stmt_sim9 c.
+Proof.
+  induction c; try (intros R g out R' g' Hc; cbn [stmt9] in Hc; discriminate Hc);
+    intros R g out R' g' Hc Hrun pre gv top hp Hseg Hnames Hoff Hroom Hrel Hsimp; cbn [stmt9] in Hc;
+    pose proof (proj1 (gsimple_app9 R g) Hsimp) as [HsR Hsg].
+  - (* CBin: IfTrue, IfFalse *)
+    destruct op; try discriminate Hc; apply andb_true_iff in Hc; destruct Hc as [He Hb];
+      cbn [run9 code9 stmt_gnames9 stmt_depth9] in *; cbv zeta in *.
+    + apply (if1_sim9 false c1 c2 R g out R' g' pre gv top hp IHc2 He Hb); try assumption.
+      etransitivity; [|exact Hrun]. destruct (ev (R ++ g) c1) as [v|]; [destruct (RefSem.v_bool [] v)|]; reflexivity.
+    + apply (if1_sim9 true c1 c2 R g out R' g' pre gv top hp IHc2 He Hb); try assumption.
+      etransitivity; [|exact Hrun]. destruct (ev (R ++ g) c1) as [v|]; [destruct (RefSem.v_bool [] v)|]; reflexivity.
+  - (* CUn UReturn *)
+    destruct op; try discriminate Hc. apply andb_true_iff in Hc. destruct Hc as [_ Hr].
+    cbn [run9 code9 stmt_gnames9 stmt_depth9] in *.
+    set (cr := code_rhs9 T FT (lnames R) c) in *.
+    pose proof (rhs_sim9 c pre R g gv top hp Hr (seg_app_l _ _ _ _ Hseg) Hnames Hoff Hroom Hrel Hsimp) as Hrhs. fold cr in Hrhs.
+    destruct (run_rhs9 cs R g c) as [[v|] g1]; injection Hrun as <- <- <-; (split; [|reflexivity]).
+    + destruct Hrhs as (k & gv1 & top1 & hp1 & Hst & Hfo & Hrel1 & Hsg1 & Hv).
+      split; [apply gsimple_app9; auto|]. exists k, gv1, top1, hp1, (bytes (pre ++ cr)), (lstack R).
+      rewrite <- app_assoc in Hst. split; [exact Hst|]. split; [exact Hfo|].
+      split; [exact (seg_instr _ _ _ _ (seg_app_r _ _ _ _ Hseg)) | auto].
+    + eapply rhs_err_cont9; eauto.
+  - (* CTri IfElse *)
+    destruct op; try discriminate Hc. apply andb_true_iff in Hc. destruct Hc as [Hc Hb].
+    apply andb_true_iff in Hc. destruct Hc as [He Ha].
+    cbn [run9 code9 stmt_gnames9 stmt_depth9] in *; cbv zeta in *.
+    set (ce := code_expr5 T (lnames R) c1) in *.
+    set (ca := code9 T FT (lnames R) (bytes pre + bytes ce + 5) c2) in *.
+    set (else_at := bytes pre + bytes ce + 5 + bytes ca + 5) in *.
+    set (cb := code9 T FT (lnames R) else_at c3) in *.
+    set (jf := IGotoIfFalse (u32_to_i32 else_at)) in *.
+    set (jg := IGoto (u32_to_i32 (else_at + bytes cb))) in *.
+    assert (Hend : bytes (pre ++ ce ++ jf :: ca ++ jg :: cb) = else_at + bytes cb).
+    { rewrite !bytes_app. cbn [bytes]. rewrite bytes_app. cbn [bytes].
+      change (spanN jf) with 5. change (spanN jg) with 5. unfold else_at. lia. }
+    assert (Hsmall : else_at + bytes cb < 2147483648) by (pose proof (seg_bound P P_small _ _ Hseg) as Hb'; rewrite Hend in Hb'; lia).
+    assert (Hne : names_ok (expr_gnames (lnames R) c1)) by (intros x Hx; apply Hnames, in_or_app; auto).
+    assert (Hna : names_ok (stmt_gnames9 (lnames R) c2)) by (intros x Hx; apply Hnames, in_or_app; right; apply in_or_app; auto).
+    assert (Hnb : names_ok (stmt_gnames9 (lnames R) c3)) by (intros x Hx; apply Hnames, in_or_app; right; apply in_or_app; auto).
+    destruct (seg_mid P _ _ _ _ Hseg) as (_ & _ & Srest).
+    destruct (seg_mid P _ _ _ _ Srest) as (Sa & Hcg & Sb).
+    assert (Hpre1 : bytes (pre ++ ce ++ [jf]) = bytes pre + bytes ce + 5).
+    { rewrite !bytes_app. cbn [bytes]. change (spanN jf) with 5. lia. }
+    assert (Hpre2 : bytes ((pre ++ ce ++ [jf]) ++ ca ++ [jg]) = else_at).
+    { rewrite bytes_app, Hpre1, bytes_app. cbn [bytes]. change (spanN jg) with 5. unfold else_at. lia. }
+    pose proof (cond_sim9 c1 pre false else_at (ca ++ jg :: cb) R g gv top hp He Hseg ltac:(lia) Hne Hoff ltac:(lia) Hrel Hsimp) as Hcond.
+    fold ce in Hcond.
+    destruct (ev (R ++ g) c1) as [v|] eqn:Ev.
+    + destruct (RefSem.v_bool [] v) eqn:Ebv; cbn [Bool.eqb] in Hcond.
+      * destruct (IHc2 R g out R' g' Ha Hrun (pre ++ ce ++ [jf]) gv top hp ltac:(rewrite Hpre1; exact Sa) Hna Hoff ltac:(lia) Hrel Hsimp)
+          as [Hbody Hl].
+        rewrite Hpre1 in Hbody. fold ca in Hbody. split; [|exact Hl]. rewrite Hend.
+        eapply cont9_prepend; [exact Hcond | reflexivity|].
+        eapply cont9_goto; [exact Hbody | | exact Hsmall].
+        rewrite bytes_app, Hpre1. rewrite bytes_app, Hpre1 in Hcg. exact Hcg.
+      * destruct (IHc3 R g out R' g' Hb Hrun ((pre ++ ce ++ [jf]) ++ ca ++ [jg]) gv top hp ltac:(rewrite Hpre2; exact Sb) Hnb Hoff
+                    ltac:(lia) Hrel Hsimp) as [Hbody Hl].
+        rewrite Hpre2 in Hbody. fold cb in Hbody.
+        replace (((pre ++ ce ++ [jf]) ++ ca ++ [jg]) ++ cb) with (pre ++ ce ++ jf :: ca ++ jg :: cb) in Hbody
+          by (rewrite <- ?app_assoc; cbn [app]; rewrite <- ?app_assoc; cbn [app]; reflexivity).
+        split; [|exact Hl]. eapply cont9_prepend; [exact Hcond | reflexivity | exact Hbody].
+    + injection Hrun as <- <- <-. split; [|reflexivity]. destruct Hcond as (k & c1' & A & B & C).
+      split; [exact Hsimp|]. exists k, c1'. rewrite C. auto.
+  - (* CSetGlobalVar *)
+    apply andb_true_iff in Hc. destruct Hc as [_ Hr].
+    cbn [run9 code9 stmt_gnames9 stmt_depth9] in *.
+    set (cr := code_rhs9 T FT (lnames R) c) in *.
+    assert (Hnr : names_ok (rhs_gnames9 (lnames R) c)) by (intros x Hx; apply Hnames, in_or_app; auto).
+    destruct (Hnames name) as [Hgin Hgfound]; [apply in_or_app; right; left; reflexivity|].
+    pose proof (rhs_sim9 c pre R g gv top hp Hr (seg_app_l _ _ _ _ Hseg) Hnr Hoff Hroom Hrel Hsimp) as Hrhs. fold cr in Hrhs.
+    destruct (run_rhs9 cs R g c) as [[v|] g1]; injection Hrun as <- <- <-; (split; [|reflexivity]).
+    + destruct Hrhs as (k & gv1 & top1 & hp1 & Hst & Hfo & Hrel1 & Hsg1 & Hv).
+      unfold idT in *. destruct (nm_find (handle_of_bytes name) T) as [id|] eqn:Eid; [|congruence].
+      assert (Hid : id < 4294967296) by (rewrite <- two32_eq; eapply T_lt; eauto).
+      pose proof (seg_instr _ _ _ _ (seg_app_r _ _ _ _ Hseg)) as Hci.
+      pose proof (@ex_set_global F bld P cap (top1 :: rest) hp1 None [] _ id (below ++ lstack R) (to_vm v) gv1 Hci Hid) as Hset.
+      split; [apply gsimple_app9; split; [exact HsR | apply set_assoc_simple; assumption]|].
+      exists (k + 1)%nat, (gset gv1 id (to_vm v)), top1, hp1. split; [|split; [exact Hfo | apply grel_set; auto]].
+      eapply steps9_trans; [exact Hst|]. apply steps9_1.
+      rewrite app_assoc, bytes_snoc. change (spanN (ISetGlobalVar id)) with 5. apply exec1_exec9. exact Hset.
+    + eapply rhs_err_cont9; eauto.
+  - (* CSetVar of an existing local *)
+    apply andb_true_iff in Hc. destruct Hc as [Hc Hr]. apply andb_true_iff in Hc. destruct Hc as [Hx Hm].
+    cbn [run9 code9 stmt_gnames9 stmt_depth9] in *.
+    set (cr := code_rhs9 T FT (lnames R) c) in *.
+    pose proof (rhs_sim9 c pre R g gv top hp Hr (seg_app_l _ _ _ _ Hseg) Hnames Hoff Hroom Hrel Hsimp) as Hrhs. fold cr in Hrhs.
+    destruct (lmem_some _ _ Hm) as [old Eold].
+    destruct (slot_local name R old Eold) as (i & Hi & Hlt & _ & Hupd).
+    destruct (run_rhs9 cs R g c) as [[v|] g1]; injection Hrun as <- <- <-.
+    + destruct Hrhs as (k & gv1 & top1 & hp1 & Hst & Hfo & Hrel1 & Hsg1 & Hv).
+      unfold sets_local. change (map fst R) with (lnames R). rewrite Hm.
+      destruct (Hupd v) as [Hu Hl]. split; [|exact Hl].
+      unfold set_slot in *. rewrite Hi in *.
+      pose proof (seg_instr _ _ _ _ (seg_app_r _ _ _ _ Hseg)) as Hci.
+      assert (Hi32 : N.of_nat i < 4294967296) by (rewrite lstack_length in Hlt; unfold cap, stack_size in *; lia).
+      pose proof (ex9_set_local F bld P cap _ (N.of_nat i) (below ++ lstack R) (to_vm v) gv1 top1 rest hp1 Hci Hi32) as Hset.
+      rewrite Hfo, Hoff, Nat2N.id in Hset. specialize (Hset ltac:(rewrite app_length; lia)).
+      rewrite upd_app_r9, Hu in Hset.
+      split; [apply gsimple_app9; split; [apply set_assoc_simple; assumption | exact Hsg1]|].
+      exists (k + 1)%nat, gv1, top1, hp1. split; [|auto].
+      eapply steps9_trans; [exact Hst|]. apply steps9_1.
+      rewrite app_assoc, bytes_snoc. change (spanN (ISetLocalVar _)) with 5. exact Hset.
+    + split; [|reflexivity]. eapply rhs_err_cont9; eauto.
+Qed.
+
 End Body.
 End Run9b.
